@@ -43,8 +43,7 @@ Rules implemented (each with the sentence of the manual it comes from):
 * INCLUDE inserts the file "as if it would have been inserted with an
   editor"; BINCLUDE file[,offset[,length]] lays down the bytes of the file.
 
-Everything outside this list (forward references to a private label that has
-a global namesake, references from a nested construct to a private label of
+Everything outside this list (references from a nested construct to a private label of
 the enclosing one, ARGCOUNT after SHIFT or with fewer arguments than
 parameters, ...) is not defined by the manual; the generator of the check does
 not produce it and the model raises ModelError if it meets something it
